@@ -718,7 +718,7 @@ pub fn run(args: &[String]) -> ! {
                signed power > 2 x listed power, or empty with the right round) holds; published prices lie \
                within the reported range. Non-trivial: signed power within one vote of the threshold, or \
                an even number of reports for a pair",
-        cases_quick: 400,
+        cases_quick: 800,
         cases_thorough: 12_000,
         shards: 12,
         min_nontrivial: 0.2,
